@@ -158,7 +158,7 @@ Definition verdict (e : env) (t : track) (closed : bool) : option N :=
           else if is_sctx o then (if tk_fault t then 672 else 671)
           else if tk_fault t then 690
           else if checks_at_subscribe o && tk_cond0 t then
-            (if en_setschema e && is_time o then b + 7 else b + 5)
+            (if en_faults e then 690 else if en_setschema e && is_time o then b + 7 else b + 5)
           else if tk_held_proc t then
             (if en_setschema e && (is_time o || is_query o) then b + 7
              else if orphan then b + 3
@@ -203,7 +203,8 @@ Definition subscribe_codes (e : env) (v : view) (o : sop) (ob : opobs) : list N 
         (the lookup precedes the check); it is served by this transition's
         processSubscriptions and judged at the next poll *)
      else if must && negb (v_applied v)
-     then [(if en_setschema e && is_time r then b + 7 else b + 5)%N] else [])
+     then [(if en_faults e then 690   (* a pending identical subscription, stale since a faulted transition, was reused *)
+            else if en_setschema e && is_time r then b + 7 else b + 5)%N] else [])
     ++ (if is_sctx o && negb (N.eqb (oo_tick ob) (tick_of (v_clock v) (hd 0 (op_states o))))
         then [(if v_window v then 675 else if en_setschema e then 677 else 673)%N] else []).
 
@@ -414,4 +415,12 @@ Fixpoint ctx_touched (x : nat) (es : list sevent) : bool :=
   | [] => false
   | EStateCtx act deact :: r => mem x (act ++ deact) || ctx_touched x r
   | _ :: r => ctx_touched x r
+  end.
+
+(* some later processSubscriptions found predicate f true on the clock *)
+Fixpoint query_held (f : qfn) (es : list sevent) : bool :=
+  match es with
+  | [] => false
+  | EProcess _ _ _ live _ :: r => qfn_eval f live || query_held f r
+  | _ :: r => query_held f r
   end.
